@@ -12,7 +12,9 @@ WORDS = ['a', 'b', 'ab', 'x1', '12', '  ', ' a', 'a ', 'DATE', 'opt', '3', '', '
          '(', '|', '2020-01-02', 'b3b', ' ', 'ab12']
 SEPS_IN_TEXT = ['\n', '\n', '\n', '\n', '\r\n', '\r', '\x0c', '\x0b', '\x1c', '\x85', ' ']
 PATTERNS = [[], [], [r'\d+'], [r'\d+', r'^ab.*$'], [r'a\s'], [r'^x\d'], [r'[a-z]+\d'], [r'\d{4}-\d\d-\d\d'],
-            [r'b\d*b', r'\d'], [r'^\d+$'], [r'x*'], [r'(\d+)$']]
+            [r'b\d*b', r'\d'], [r'^\d+$'], [r'x*'], [r'(\d+)$'],
+            # an earlier pattern that matches both lines without excusing the difference, a later one that excuses it
+            [r'id \d+', r'^name=.* end$'], [r'\d+', r'run [a-z]+ \d+'], [r'7', r'[a-z]+ id']]
 
 
 def gen_line(rng):
